@@ -756,6 +756,10 @@ impl<'tcx> Cx<'tcx> {
                     _ => None,
                 }
             }
+            ty::Ref(_, inner, _) if inner.is_str() => {
+                let bytes = val.try_get_slice_bytes_for_diagnostics(self.tcx)?;
+                Some(V::Str(String::from_utf8_lossy(bytes).into_owned()))
+            }
             ty::Array(..) | ty::Tuple(_) | ty::Adt(..) => {
                 if let ty::Adt(d, _) = ty.kind() {
                     if !(d.is_struct() || d.is_enum()) {
@@ -949,6 +953,15 @@ impl<'tcx> Cx<'tcx> {
                 _ => {}
             }
         }
+        // boolean flags: `flag & true`, `flag | false` and the absorbing cases (an `all_fit &= ..` accumulator starts at true)
+        if oty.is_bool() {
+            match (op, a, b) {
+                (BitAnd, V::Int(1), x) | (BitAnd, x, V::Int(1)) | (BitOr, V::Int(0), x) | (BitOr, x, V::Int(0)) => return x.clone(),
+                (BitAnd, V::Int(0), _) | (BitAnd, _, V::Int(0)) => return V::Int(0),
+                (BitOr, V::Int(1), _) | (BitOr, _, V::Int(1)) => return V::Int(1),
+                _ => {}
+            }
+        }
         let (ta, tb) = (self.to_term(st, a), self.to_term(st, b));
         let name = match op {
             Add | AddUnchecked | AddWithOverflow => "add",
@@ -980,7 +993,17 @@ impl<'tcx> Cx<'tcx> {
     fn eval_rvalue(&self, st: &mut State<'tcx>, rv: &Rvalue<'tcx>) -> R<V<'tcx>> {
         match rv {
             Rvalue::Use(op, _) => self.eval_operand(st, op),
-            Rvalue::Ref(_, _, pl) | Rvalue::RawPtr(_, pl) => Ok(V::Ref(self.eval_place(st, pl)?)),
+            Rvalue::Ref(_, _, pl) | Rvalue::RawPtr(_, pl) => {
+                // `&*s` for a string constant s (a `&str` is represented by its text): the same string
+                if let Some((ProjectionElem::Deref, rest)) = pl.projection.split_last() {
+                    if let Ok(bp) = self.eval_place(st, &Place { local: pl.local, projection: self.tcx.mk_place_elems(rest) }) {
+                        if let Ok(V::Str(sv)) = self.read(st, &bp) {
+                            return Ok(V::Str(sv));
+                        }
+                    }
+                }
+                Ok(V::Ref(self.eval_place(st, pl)?))
+            }
             Rvalue::CopyForDeref(pl) => {
                 let q = self.eval_place(st, pl)?;
                 self.read(st, &q)
@@ -2076,6 +2099,22 @@ impl<'tcx> Cx<'tcx> {
                 outs.push((k as u128, self.run_from(&mut s1, base)));
             }
             return Ok(Some(Outcome::Switch(t, outs, None)));
+        }
+        // a tuple-struct / tuple-variant constructor used as a function (`.map(Some)`, `.map(Rad)`)
+        if let rustc_hir::def::DefKind::Ctor(of, rustc_hir::def::CtorKind::Fn) = tcx.def_kind(cdid) {
+            let r = match of {
+                rustc_hir::def::CtorOf::Struct => Some(V::Agg(argv.clone())),
+                rustc_hir::def::CtorOf::Variant => {
+                    let vdid = tcx.parent(cdid);
+                    let adid = tcx.parent(vdid);
+                    let adt = tcx.adt_def(adid);
+                    adt.variants().iter_enumerated().find(|(_, v)| v.def_id == vdid).map(|(vi, _)| V::Enum(vi.as_u32(), argv.clone()))
+                }
+            };
+            if let Some(r) = r {
+                finish(self, st, r)?;
+                return Ok(None);
+            }
         }
         if let Some(r) = self.model(st, &name, &pretty, cargs, &argv, &argtys, dty)? {
             push_uniq(&mut self.stats.borrow_mut().models, name.clone());
